@@ -69,13 +69,49 @@ BY_DESIGN = [
 
 KNOWN = [
     {'key': 'stack:forwarded-node-port-not-a-number',
-     'what': 'Forwarded: for="1.2.3.4:_x" (RFC 7239 obfuscated port): WSGI req.remote_addr returns the peer address (reads REMOTE_ADDR only), ASGI '
-             'req.remote_addr is access_route[-1] and raises ValueError from uri.parse_host -> int(); access_route raises ValueError on both (C09 finding)',
-     'witness': {'headers': [['Forwarded', 'for="1.2.3.4:_x"']], 'remote_addr': '10.0.0.9', 'differs': ['digest.remote_addr']}},
+     'what': 'Forwarded: for="1.2.3.4:_x" (RFC 7239 obfuscated node port): WSGI req.remote_addr returns the peer address (reads REMOTE_ADDR only); ASGI '
+             'req.remote_addr is access_route[-1]: ValueError from uri.parse_host -> int() on the first access, and because the aborted computation leaves '
+             '_cached_access_route == [], IndexError afterwards (access_route then returns []). access_route itself raises ValueError on both stacks (C09 finding)',
+     'witness': {'headers': [['Forwarded', 'for="1.2.3.4:_x"']], 'remote_addr': '10.0.0.9', 'differs': ['digest.remote_addr'],
+                 'wsgi': '10.0.0.9', 'asgi': ['raise', 'ValueError, then IndexError']}},
     {'key': 'stack:asgi-scope-client-none',
      'what': 'scope["client"] = None is allowed by the ASGI HTTP scope ("Optional; if missing defaults to None") but falcon.asgi.Request.remote_addr / '
-             'access_route only handle a missing key (TypeError: cannot unpack None); WSGI without REMOTE_ADDR answers 127.0.0.1 (C09 finding)',
-     'witness': {'scope': {'client': None}, 'differs': ['digest.remote_addr', 'digest.access_route']}},
+             'access_route only handle a missing key (TypeError: cannot unpack non-iterable NoneType); WSGI without REMOTE_ADDR answers 127.0.0.1 (C09 finding)',
+     'witness': {'scope': {'client': None}, 'differs': ['digest.remote_addr', 'digest.access_route'], 'wsgi': '127.0.0.1', 'asgi': ['raise', 'TypeError']}},
+    {'key': 'stack:wsgi-empty-content-variables-are-header-values',
+     'what': 'a WSGI server may hand CONTENT_TYPE = "" / CONTENT_LENGTH = "" for a request without these lines (PEP 3333 "may be empty or absent"; wsgiref does): '
+             'falcon.Request.content_type is then "" and req.headers / headers_lower contain content-type: "" and content-length: "" (content_length is '
+             'normalised to None, NOTE in request.py), while the same request on ASGI has content_type None and no such keys',
+     'witness': {'environ': {'CONTENT_TYPE': '', 'CONTENT_LENGTH': ''}, 'differs': ['digest.content_type', 'digest.headers', 'digest.headers_lower'],
+                 'wsgi': ['', {'content-type': '', 'content-length': ''}], 'asgi': [None, {}]}},
+    {'key': 'wsgi-client:path-info-undecodable-bytes-replaced',
+     'what': 'falcon.testing.create_environ decodes the percent-escapes of the path as UTF-8 with replacement BEFORE tunnelling it as latin-1, so a path '
+             'with bytes that are not UTF-8 reaches the app as PATH_INFO "/a\xef\xbf\xbdb" (U+FFFD re-encoded) where every PEP 3333 server hands "/a\xffb"; '
+             'req.path is the same ("/a\ufffdb") but the environ is not what a server produces',
+     'witness': {'path': '/a%FFb', 'differs': ['raw.PATH_INFO'], 'simulate_request': '/a\u00ef\u00bf\u00bdb', 'pep3333_server': '/a\u00ffb'}},
+    {'key': 'wsgi-client:method-unknown-to-wsgiref-raises-wsgiwarning',
+     'what': 'falcon/testing/client.py installs warnings.filterwarnings("error", "Unknown REQUEST_METHOD: \'(CONNECT|...all falcon methods...)\'", WSGIWarning): '
+             'outside pytest (whose configuration re-ignores it) simulate_request(wsgi_app, method=m) RAISES WSGIWarning for every method falcon knows but '
+             'wsgiref.validate does not (CONNECT and all WebDAV methods) before the app is called; on ASGI and under a real server the request is served',
+     'witness': {'method': 'CONNECT', 'simulate_request(wsgi)': ['raise', 'WSGIWarning', "Unknown REQUEST_METHOD: 'CONNECT'"], 'pep3333_server': 405}},
+    {'key': 'wsgi-client:content-type-on-204-304-when-media-is-set',
+     'what': 'resp.status = 204 (or 304) together with resp.media: rendering the media sets resp.content_type to the default media type, so BOTH stacks emit '
+             'Content-Type: application/json on a 204 / 304 (the default type is withheld only when nothing set the header); simulate_request(wsgi) runs under '
+             'wsgiref.validate and raises AssertionError "Content-Type header found in a 204 response", a server driver and the ASGI client deliver the response',
+     'witness': {'responder': {'status': 204, 'media': {'a': 1}}, 'simulate_request(wsgi)': ['raise', 'AssertionError'],
+                 'both_stacks_emit': [['content-type', 'application/json']]}},
+    {'key': 'asgi-client:host-header-argument-overridden',
+     'what': 'simulate_request(app, headers={"Host": ...}): create_environ lets the header replace the Host derived from host= / port= (singleton rule), '
+             'create_scope APPENDS the derived Host line after the given one and falcon.asgi.Request keeps the last: the same arguments give req.host == '
+             '"example.com" on WSGI and "falconframework.org" on ASGI; a Host that differs from the listening address cannot be simulated on ASGI',
+     'witness': {'kwargs': {'headers': {'Host': 'example.com:8080'}}, 'wsgi req.host': 'example.com', 'asgi req.host': 'falconframework.org',
+                 'differs': ['raw.headers', 'digest.host', 'digest.port', 'digest.netloc', 'digest.uri', 'digest.prefix', 'digest.forwarded_host', 'digest.headers']}},
+    {'key': 'asgi-client:cookies-argument-encoded-as-utf8',
+     'what': 'simulate_request(app, cookies={"sid": "caf\xe9"}): create_environ puts the text into HTTP_COOKIE as it is (latin-1 semantics of PEP 3333), '
+             'create_scope encodes the Cookie line with str.encode() (UTF-8) although it encodes every other header value as latin-1: req.cookies is '
+             '{"sid": "caf\xe9"} on WSGI and {"sid": "caf\xc3\xa9"} on ASGI',
+     'witness': {'kwargs': {'cookies': {'sid': 'caf\u00e9'}}, 'wsgi req.cookies': {'sid': 'caf\u00e9'}, 'asgi req.cookies': {'sid': 'caf\u00c3\u00a9'},
+                 'differs': ['raw.headers', 'digest.cookies', 'digest.headers', 'digest.headers_lower']}},
 ]
 
 ASSUMPTIONS = [
@@ -1075,8 +1111,9 @@ _RULES = [
 
 def _classify(pair, A, S, E, diffs, left, right):
     keys, explained = [], set()
+    listed = {k['key'] for k in KNOWN}  # a class is excused only while it is listed (and thereby reported) in KNOWN
     for key, p, explain in _RULES:
-        if p == pair or (p == 'asgi-client' and pair == 'asgi-conductor'):
+        if key in listed and (p == pair or (p == 'asgi-client' and pair == 'asgi-conductor')):
             try:
                 hit = explain(A, S, E, left, right, diffs) & set(diffs)
             except (KeyError, TypeError, IndexError, AttributeError):  # an observation without the shape the class describes is not explained by it
@@ -1224,54 +1261,91 @@ def _typeless_ok(S):
 
 
 def _enumerate(tier):
-    """The exhaustive part: cross products over a few dimensions at a time, the others at their defaults."""
-    cases = []
+    """The exhaustive part: full cross products over a few dimensions at a time, the other dimensions at their defaults.
+
+    -> (cases, blocks): cases = [(request, responder spec, request options)], blocks = [(description, number of cases before the options factor)]."""
+    cases, blocks = [], []
+
+    def block(text, items):
+        items = list(items)
+        blocks.append((text, len(items)))
+        cases.extend(items)
+
+    ok = _spec(body=('text', 'ok'))
+    block('R1 request line and routing: methods GET/HEAD/POST/OPTIONS/DELETE x {the 4 templates /items/{s}, /items/{s}/, /sink/{s}, /nope/{s} with the first 14 '
+          'path segments (ASCII; percent-encoded UTF-8 of 2, 3, 4 bytes, lower-case hex; invalid byte, truncated, overlong, surrogate sequences; malformed '
+          'escapes %zz, a%, %2; encoded "/"), and the fixed paths /, /sink, /sink/, /items, /items/} x queries {"", a=1&b=, a=1,2&a=,}',
+          ((_req(method=m, path=t.replace('{s}', s), query=q), ok, None)
+           for m, t, s, q in itertools.product(['GET', 'HEAD', 'POST', 'OPTIONS', 'DELETE'], _TEMPLATES[:9], _SEGS[:14], ['', 'a=1&b=', 'a=1,2&a=,'])
+           if '{s}' in t or s == _SEGS[0]))
+    block('R2 templates /items/{s}, /items/{s}/, /sink/{s} x all %d path segments (adds encoded "?", "#", space, "+", double encoding, ";", NUL, LF, braces) x all '
+          '%d query strings (blank values, repeated and case-differing keys, commas, encoded commas, percent-encoded UTF-8 / invalid bytes / NUL, malformed '
+          'escapes, "&&", ";", "[]", key without "=")' % (len(_SEGS), len(_QUERIES)),
+          ((_req(path=t.replace('{s}', s), query=q), _spec(body=('media', {'ok': True})), None)
+           for t, s, q in itertools.product(['/items/{s}', '/items/{s}/', '/sink/{s}'], _SEGS, _QUERIES)))
+    block('R3 methods %s x paths /items/1, /sink/x, /nope' % '/'.join(_METHODS),
+          ((_req(method=m, path=p), ok, None) for m, p in itertools.product(_METHODS, ['/items/1', '/sink/x', '/nope'])))
+    block('R4 all 8 combinations of strip_url_path_trailing_slash / keep_blank_qs_values / auto_parse_qs_csv x paths /items/42, /items/42/, /sink/a/, /, '
+          '/items/caf%%C3%%A9/ x all %d query strings (options factor not applied again)' % len(_QUERIES),
+          ((_req(path=p, query=q), ok, o) for o, p, q in itertools.product(_OPTS, ['/items/42', '/items/42/', '/sink/a/', '/', '/items/caf%C3%A9/'], _QUERIES)))
+    block('H1 %d scheme / listening address / Host line / HTTP version settings (default and non-default ports, Host differing from the listening address, '
+          'Host with a non-numeric port, IPv6 literal, empty Host, no Host, HTTP/1.0 with and without Host, HTTP/2) x root paths {"", /api} x peers {none, '
+          '10.0.0.9} x %d forwarding header sets (X-Forwarded-For in one line / two lines of differently-cased names, X-Forwarded-Proto + -Host, Forwarded with '
+          'proto / host / quoted IPv6 node, two Forwarded lines, Forwarded with a non-numeric node port, obfuscated node, X-Real-IP, X-Forwarded-Prefix, '
+          'malformed Forwarded)' % (len(_HOSTS), len(_FWD_SETS)),
+          ((_req(scheme=sch, server=srv, host_header=hh, http_version=hv, root_path=rp, remote_addr=ra, headers=list(fw), query='x=1'), ok, None)
+           for (sch, srv, hh, hv), rp, ra, fw in itertools.product(_HOSTS, ['', '/api'], [None, '10.0.0.9'], _FWD_SETS)))
+    block('H2 peers {none, ::1, 10.0.0.9} x scope client {missing, None} x CONTENT_TYPE / CONTENT_LENGTH {absent, empty} x root paths {"", /api, /a/b} x paths '
+          '{/items/1, /, ""} (empty path only under a root path)',
+          ((_req(remote_addr=ra, client_none=cn, wsgi_empty_vars=ev, root_path=rp, path=p), ok, None)
+           for ra, cn, ev, rp, p in itertools.product([None, '::1', '10.0.0.9'], [False, True], [False, True], ['', '/api', '/a/b'], ['/items/1', '/', ''])
+           if p or rp))
+    block('C1 %d conditional / range / negotiation / credential header sets (Range forms incl. unsatisfiable order and multi-range, If-Match, If-None-Match in one '
+          'and two lines, HTTP dates valid / invalid / obsolete format, If-Range, Date, Accept variants incl. empty and malformed and two lines, Authorization, '
+          'Expect, Referer, User-Agent, a custom field in three differently-cased lines, a latin-1 value, an empty value, Content-Type on GET) x %d cookie sets '
+          '(none, one, two, repeated name, latin-1 value, quoted / empty values) x cookies passed by cookies= or as a Cookie line x methods GET/OPTIONS x routes '
+          '/items/1, /sink/1 (OPTIONS on the resource route only without extra headers)' % (len(_COND_SETS), len(_COOKIES)),
+          ((_req(method=m, path=pth, headers=list(hs), cookies=ck, cookie_via=via), ok, None)
+           for hs, ck, via, m, pth in itertools.product(_COND_SETS, _COOKIES, ['kwarg', 'header'], ['GET', 'OPTIONS'], ['/items/1', '/sink/1'])
+           if not (m == 'OPTIONS' and pth == '/items/1' and hs)))
+
+    def bodies():
+        for m, ct, b, ch, rd in itertools.product(['POST', 'PUT', 'GET'], _CTYPES, _BODIES, _CHUNKS[:4], _READS):
+            if m == 'GET' and ch != ():
+                continue
+            hs = [] if ct is None else [('Content-Type', ct)]
+            yield (_req(method=m, headers=hs, body=b, declare_length=bool(ch), chunks=ch, sim_chunk=(ch[0] or 1) if ch else 4096, ct_kwarg=ch == (3,),
+                        json_kwarg=ch == (1, 1, 1)), _spec(body=('text', 'ok'), read=rd), None)
+
+    block('B1 methods POST/PUT x %d request content types (none, JSON, JSON with charset, upper-case, urlencoded, urlencoded with parameter, text/plain, one '
+          'without handler) x %d bodies (empty, JSON object / null / truncated / non-ASCII / 5 kB, urlencoded incl. an invalid escape, binary) x 4 chunkings '
+          '(one event; 1-byte events; empty events interleaved; 3 bytes then the rest -- the test client uses asgi_chunk_size 4096 / 1 / 1 / 3; with the 3rd '
+          'chunking the Content-Type goes through content_type=, with the 2nd through json= when the body is what json= would produce) x %d read modes (none, '
+          'read(), read(3)+read(), get_media() twice, get_media(default_when_empty=None), get_media() with the error propagating); the same with GET and one '
+          'event; a declared Content-Length: 0 for an empty body with the last three chunkings' % (len(_CTYPES), len(_BODIES), len(_READS)), bodies())
+    block('S1 methods GET/HEAD x %d statuses (unset, int and "NNN Reason" forms of 200 / 201 / 204 / 304 / 404, "204 Custom", 299, 418, 500, http.HTTPStatus(202); '
+          'no 1xx) x %d body forms (none; text non-ASCII / empty; data / empty; media dict / empty list; iterable resp. async generator with an empty chunk / '
+          'empty; set_stream with length; file-like 9 kB / empty) x content type {unset, text/plain; charset=utf-8} x %d header sets (none; set_header + '
+          'append_header incl. a latin-1 value and Link; set_cookie with attributes + non-ASCII value + unset_cookie; etag / cache_control / vary / location; '
+          'downloadable_as / retry_after / content_length / a wrong Content-Length; two cookies + append_header(Set-Cookie)); 204 / 304 with an explicit '
+          'content type are left out (wsgiref.validate rejects them)' % (len(_STATUSES), len(_BODY_FORMS), len(_RESP_EXTRAS)),
+          ((_req(method=m), S, None) for m, S in ((m, _spec(status=st, body=bf, content_type=ct, **_RESP_EXTRAS[ex])) for m, st, bf, ct, ex in itertools.product(
+              ['GET', 'HEAD'], _STATUSES, _BODY_FORMS, _RESP_CTYPES[:2], range(len(_RESP_EXTRAS)))) if _typeless_ok(S)))
+    block('S2 methods GET/HEAD/POST x %d raised outcomes (HTTPBadRequest, HTTPNotFound plain / with description and headers, HTTPMethodNotAllowed with Allow, '
+          'HTTPRangeNotSatisfiable, HTTPServiceUnavailable with retry_after int / datetime, HTTPTooManyRequests, HTTPUnauthorized with challenges, HTTPError 418 '
+          'with code and headers, HTTPStatus 202 with headers and text / 204 / "299 Odd", HTTPFound, HTTPMovedPermanently with headers, HTTPSeeOther, '
+          'HTTPTemporaryRedirect, HTTPPermanentRedirect, RuntimeError) x Accept {none, application/xml, text/html + JSON q=0.5, image/png} x raised before / '
+          'after the responder wrote status 201, headers and a text body' % len(_ERRORS),
+          ((_req(method=m, headers=[] if acc is None else [('Accept', acc)]),
+            _spec(kind='error', error=er, raise_after=after, **(dict(_RESP_EXTRAS[1], body=('text', 'partial'), status=201) if after else {})), None)
+           for m, er, acc, after in itertools.product(['GET', 'HEAD', 'POST'], _ERRORS, [None, 'application/xml', 'text/html, application/json;q=0.5', 'image/png'],
+                                                      [False, True])))
     d = _OPTS if tier == 'thorough' else [_OPTS[0], _OPTS[7]]
-    # R: request line and routing x request options
-    for m, t, s, q, o in itertools.product(['GET', 'HEAD', 'POST', 'OPTIONS', 'DELETE'], _TEMPLATES[:9], _SEGS[:14], ['', 'a=1&b=', 'a=1,2&a=,'], [0]):
-        if '{s}' not in t and s != _SEGS[0]:
-            continue
-        cases.append((_req(method=m, path=t.replace('{s}', s), query=q), _spec(body=('text', 'ok'), read='none'), None))
-    for t, s, q in itertools.product(['/items/{s}', '/items/{s}/', '/sink/{s}'], _SEGS, _QUERIES):
-        cases.append((_req(path=t.replace('{s}', s), query=q), _spec(body=('media', {'ok': True})), None))
-    for m, p in itertools.product(_METHODS, ['/items/1', '/sink/x', '/nope']):
-        cases.append((_req(method=m, path=p), _spec(body=('text', 'ok')), None))
-    # every request option combination on the inputs the options act on
-    for o, p, q in itertools.product(_OPTS, ['/items/42', '/items/42/', '/sink/a/', '/', '/items/caf%C3%A9/'], _QUERIES):
-        cases.append((_req(path=p, query=q), _spec(body=('text', 'ok')), o))
-    # H: URL parts and forwarding
-    for (sch, srv, hh, hv), rp, ra, fw in itertools.product(_HOSTS, ['', '/api'], [None, '10.0.0.9'], _FWD_SETS):
-        cases.append((_req(scheme=sch, server=srv, host_header=hh, http_version=hv, root_path=rp, remote_addr=ra, headers=list(fw), query='x=1'), _spec(body=('text', 'ok')), None))
-    for ra, cn, ev, rp, p in itertools.product([None, '::1', '10.0.0.9'], [False, True], [False, True], ['', '/api', '/a/b'], ['/items/1', '/', '']):
-        if p == '' and rp == '':
-            continue
-        cases.append((_req(remote_addr=ra, client_none=cn, wsgi_empty_vars=ev, root_path=rp, path=p), _spec(body=('text', 'ok')), None))
-    # C: conditional / range / negotiation headers x cookies
-    for hs, ck, via, m, pth in itertools.product(_COND_SETS, _COOKIES, ['kwarg', 'header'], ['GET', 'OPTIONS'], ['/items/1', '/sink/1']):
-        if m == 'OPTIONS' and pth == '/items/1' and hs:
-            continue
-        cases.append((_req(method=m, path=pth, headers=list(hs), cookies=ck, cookie_via=via), _spec(body=('text', 'ok')), None))
-    # B: bodies and media
-    for m, ct, b, ch, rd in itertools.product(['POST', 'PUT', 'GET'], _CTYPES, _BODIES, _CHUNKS[:4], _READS):
-        if m == 'GET' and ch != ():
-            continue
-        hs = [] if ct is None else [('Content-Type', ct)]
-        cases.append((_req(method=m, headers=hs, body=b, declare_length=bool(ch), chunks=ch, sim_chunk=(ch[0] or 1) if ch else 4096, ct_kwarg=ch == (3,),
-                           json_kwarg=ch == (1, 1, 1)), _spec(body=('text', 'ok'), read=rd), None))
-    # S: the response space
-    for m, st, bf, ct, ex in itertools.product(['GET', 'HEAD'], _STATUSES, _BODY_FORMS, _RESP_CTYPES[:2], range(len(_RESP_EXTRAS))):
-        S = _spec(status=st, body=bf, content_type=ct, **_RESP_EXTRAS[ex])
-        if _typeless_ok(S):
-            cases.append((_req(method=m), S, None))
-    for m, er, acc, after in itertools.product(['GET', 'HEAD', 'POST'], _ERRORS, [None, 'application/xml', 'text/html, application/json;q=0.5', 'image/png'], [False, True]):
-        hs = [] if acc is None else [('Accept', acc)]
-        S = _spec(kind='error', error=er, raise_after=after, **(dict(_RESP_EXTRAS[1], body=('text', 'partial'), status=201) if after else {}))
-        cases.append((_req(method=m, headers=hs), S, None))
     full = []
     for i, (A, S, o) in enumerate(cases):
         for oo in ([o] if o is not None else d if tier == 'thorough' else [d[i % 2]]):
             full.append((A, S, oo))
-    return full
+    return full, blocks
 
 
 def _rand_seg(rnd):
@@ -1408,7 +1482,7 @@ def bounded(tier, seed, overlay_dir):
     tier = 'thorough' if tier == 'thorough' else 'quick'
     seed = int(seed or 0)
     _setup(overlay_dir)
-    _CTX['enum'] = _enumerate(tier)
+    _CTX['enum'], blocks = _enumerate(tier)
     n_enum = len(_CTX['enum'])
     n_rand = 60000 if tier == 'thorough' else 3000
     jobs = []
@@ -1463,19 +1537,17 @@ def bounded(tier, seed, overlay_dir):
             b['by_ob'][ob] = b['by_ob'].get(ob, 0) + 1
             if sum(1 for f in b['failures'] if f['obligation'] == ob) < 2 and len(b['failures']) < 5:
                 b['failures'].append(val)
-    bound = ('exhaustive part: %d cases = cross products, a few dimensions at a time with the others at their defaults: (R) 5 methods x 9 path templates x 14 '
-             'path segments (ASCII, percent-encoded UTF-8 of 2/3/4 bytes, invalid and truncated UTF-8, overlong, surrogate, malformed escapes, encoded "/", "?", "#", '
-             'space, NUL) x 3 queries; 3 routed templates x %d segments x %d query strings; 8 request-option combinations x 5 paths x %d query strings; (H) %d '
-             'scheme/server/Host/version settings x 2 root paths x 2 peers x %d forwarding header sets; peer / scope-client / empty-CGI-variable / root-path / path '
-             'variants; (C) %d conditional, range and negotiation header sets x %d cookie sets x 2 ways of passing cookies x 2 methods x 2 routes; (B) 3 methods x %d '
-             'content types x %d bodies x 4 chunkings x %d read modes (none, read(), read(3)+read(), get_media twice, get_media(default), propagating get_media); (S) 2 '
-             'methods x %d statuses x %d body forms (text, data, media, iterable / async generator, set_stream with length, file-like, none) x 2 content types x %d '
-             'header/cookie/property sets; 3 methods x %d raised errors / HTTPStatus / redirects / crash x 4 Accept values x before/after writing the response; each '
-             'under %s request-option combinations unless stated. Random part: %d cases, seed %d (request and responder drawn from the same pools plus random '
-             'percent-encoded segments of random bytes / random characters, random query strings, random bodies up to 9000 bytes and random chunkings). Every case '
-             'runs the four drivers; %d workers'
-             % (n_enum, len(_SEGS), len(_QUERIES), len(_QUERIES), len(_HOSTS), len(_FWD_SETS), len(_COND_SETS), len(_COOKIES), len(_CTYPES), len(_BODIES), len(_READS),
-                len(_STATUSES), len(_BODY_FORMS), len(_RESP_EXTRAS), len(_ERRORS), 'all 8' if tier == 'thorough' else 'one of 2 (none set / all set, alternating)', n_rand, seed, nproc))
+    bound = ('EXHAUSTIVE PART, %d cases: full cross products over a few dimensions at a time, every other dimension at its default (GET /items/42, no query, '
+             'no extra headers, http://falconframework.org:80 with the derived Host line, no peer address, no body, responder answers 200 with a text body): %s. '
+             'Each case runs under %s, except R4. RANDOM PART, %d cases, seed %d: request and responder drawn independently per dimension from the same value pools, '
+             'plus path segments made of 1-5 random bytes or 1-4 characters of "a\u00e9\u4f60\U0001f600/? %%" percent-encoded at random, query strings of 1-4 '
+             'random pairs, random bodies of up to 9000 bytes, random chunkings of up to 6 events of 0-64 bytes, query passed inside path, content_type= / json= '
+             'conveniences, one random request-option combination. Every case runs the WSGI spec driver, the ASGI spec driver, simulate_request(wsgi app) and '
+             'simulate_request(asgi app) (every 4th case also ASGIConductor); a spec driver runs a second time when the test client is documented to send a '
+             'different request (BD4, BD5, BD9). %d worker processes'
+             % (n_enum, '; '.join('%s [%d]' % b for b in blocks),
+                'all 8 request-option combinations' if tier == 'thorough' else 'one of two request-option combinations (none set / all three set, alternating)',
+                n_rand, seed, nproc))
     out = []
     for pair, name in _PAIR_NAMES.items():
         b = by[pair]
